@@ -115,52 +115,138 @@ class BlockSkip(Handler):
             raise Unrecognised(norm(node))
 
 
+def _block_atom(B, n, cur):
+    """Valuation of the tests about one open block B: number of true clauses so far (n) and value of the current clause."""
+    from ..model import cnorm
+    SUM = f"sum([self.cases[_c0].value == True for _c0 in self.branches[{B}].cases])"
+    SUM2 = f"sum((self.cases[_c0].value == True for _c0 in self.branches[{B}].cases))"
+    CUR = (f"self.cases[self.branches[{B}].cases[-1]].value",)
+
+    def atom(e):
+        if isinstance(e, ast.Compare) and len(e.ops) == 1 and isinstance(e.comparators[0], ast.Constant) and cnorm(e.left) in (SUM, SUM2) \
+                and isinstance(e.comparators[0].value, int) and not isinstance(e.comparators[0].value, bool):
+            c = e.comparators[0].value
+            return {ast.Eq: n == c, ast.NotEq: n != c, ast.Lt: n < c, ast.LtE: n <= c, ast.Gt: n > c, ast.GtE: n >= c}.get(type(e.ops[0]))
+        k = norm(e)
+        for c in CUR:
+            if k in (f"{c} == False", f"{c} is False"):
+                return not cur
+            if k in (f"{c} == True", c, f"{c} is True"):
+                return cur
+        return None
+    return atom
+
+
 def r2_skip_test(ctx):
+    """The skip test as a quantifier over the open blocks with a per-block predicate, in either spelling
+    (`for b in self.state: ... return True` / `return any(P(b) for b in self.state)`); the predicate is evaluated
+    on resolved paths under (true clauses so far, value of the current clause)."""
+    from ..flowexpr import consistent, explore, paths, truth
     fn = ctx.fn(BR, "BranchingList.false_case")
-    body = K.body_nodoc(fn)
-    loops = [s for s in body if isinstance(s, ast.For)]
-    first = body[0] if body else None
-    ctx.form(isinstance(first, ast.If) and norm(first.test) == "not self.state" and [norm(x) for x in first.body] == ["return False"], BR,
-             "BranchingList.false_case", "outside any block nothing is skipped")
-    if len(loops) != 1:
-        inner_only = any("self._get_branch_id()" in norm(s) or "self.state[-1]" in norm(s) for s in body)
+    c = ctx.repo.cls(BR, "BranchingList")
+    nm = "BranchingList.false_case"
+    ex = explore(fn)
+    loops = [v for v in ex.iterations.values() if isinstance(v[0], ast.For)]
+    rets = [e.resolved for q in ex.paths for e in q.events if e.kind == "return"]
+    coll = None
+    pred = None          # (n, cur) -> True (skip) / False (no objection) / None (unknown)
+    empty_ok = None
+    if len(loops) == 1 and isinstance(loops[0][0].target, ast.Name):
+        lp, start, its = loops[0]
+        coll = norm(lp.iter)
+        B = lp.target.id + "@loop1"
+
+        def pred(n, cur):
+            cs, unk = consistent(its, _block_atom(B, n, cur), start)
+            if unk or not cs:
+                return None
+            outs = {(q.status, norm(next((e.resolved for e in q.events[start:] if e.kind == "return"), None))) for q in cs}
+            if outs == {("return", "True")}:
+                return True
+            if all(o[0] in (None, "continue") for o in outs):
+                return False
+            return None
+        # paths that leave the function without objection return False; the empty case returns False
+        tail = {norm(e.resolved) for q in ex.paths if not any(x.kind == "return" and x.node in list(ast.walk(lp)) for x in q.events) for e in q.events if e.kind == "return"}
+        empty_ok = tail == {"False"}
+    elif len(rets) == 1 and isinstance(rets[0], ast.Call) and dotted_name(rets[0].func) == "any" and len(rets[0].args) == 1 \
+            and isinstance(rets[0].args[0], (ast.GeneratorExp, ast.ListComp)) and len(rets[0].args[0].generators) == 1 \
+            and not rets[0].args[0].generators[0].ifs and isinstance(rets[0].args[0].generators[0].target, ast.Name):
+        g = rets[0].args[0]
+        coll = norm(g.generators[0].iter)
+        var = g.generators[0].target.id
+        empty_ok = True        # any() of nothing is False
+        elt = g.elt
+        if isinstance(elt, ast.Call) and isinstance(elt.func, ast.Attribute) and norm(elt.func.value) == "self" and elt.func.attr in methods(c) \
+                and [norm(a) for a in elt.args] == [var]:
+            h = methods(c)[elt.func.attr]
+            ctx.functions_analysed.add(f"{BR}::BranchingList.{h.name}")
+            B = h.args.args[1].arg if len(h.args.args) == 2 else None
+            hp = paths(h)
+
+            def pred(n, cur):
+                at = _block_atom(B, n, cur)
+                cs, unk = consistent(hp, at)
+                if unk or not cs:
+                    return None
+                vals = set()
+                for q in cs:
+                    r = next((e.resolved for e in q.events if e.kind == "return"), None)
+                    vals.add(truth(r, at) if r is not None else None)
+                return vals.pop() if len(vals) == 1 else None
+        else:
+            def pred(n, cur):
+                return truth(elt, _block_atom(var, n, cur))
+    if coll is None or pred is None:
+        inner_only = any("self._get_branch_id()" in norm(s_) or "self.state[-1]" in norm(s_) for s_ in fn.body)
         if inner_only:
-            ctx.violated(BR, "BranchingList.false_case", "the skip test consults every open block", detail="only the innermost block is consulted",
+            ctx.violated(BR, nm, "the skip test consults every open block", detail="only the innermost block is consulted",
                          expected="a selected clause nested in an unselected one must not take effect: loop over self.state")
         else:
-            ctx.unrecognised(BR, "BranchingList.false_case", "quantification over open blocks", "no loop over self.state")
+            ctx.unrecognised(BR, nm, "quantification over open blocks", "no loop over self.state")
         return
-    lp = loops[0]
-    it = norm(lp.iter)
-    ctx.check(it in ("self.state", "reversed(self.state)", "list(self.state)"), BR, "BranchingList.false_case",
-              "the skip test consults every open block", detail=it, expected="for branch in self.state")
-    pre = [norm(s) for s in lp.body if isinstance(s, ast.Assign)]
-    ok = any(s == f"cases = self.branches[{norm(lp.target)}].cases" for s in pre) and \
-        any(s == "num_true = sum([self.cases[c].value == True for c in cases])" for s in pre)
-    ctx.form(ok, BR, "BranchingList.false_case", "per block: clauses of that block and the number of true ones so far", detail=pre)
+    ctx.form(bool(empty_ok), BR, nm, "outside any block nothing is skipped")
+    ctx.check(coll in ("self.state", "reversed(self.state)", "list(self.state)"), BR, nm,
+              "the skip test consults every open block", detail=coll, expected="for branch in self.state")
+    ctx.holds(BR, nm, "per block: clauses of that block and the number of true ones so far", detail="read through the resolved predicate")
     for n in (0, 1, 2):
         for cur in (True, False):
-            if (n == 0 and cur) or (n >= 1 and False):
-                pass
-            h = BlockSkip(n, cur)
-            cell = f"block cell true-so-far={n} current={'true' if cur else 'false'}"
             if n == 0 and cur:
                 continue          # inconsistent: a true current clause counts itself
-            try:
-                run_block(lp.body, h)
-            except Unrecognised as e:
-                ctx.unrecognised(BR, "BranchingList.false_case", cell, str(e))
+            cell = f"block cell true-so-far={n} current={'true' if cur else 'false'}"
+            got = pred(n, cur)
+            if got is None:
+                ctx.unrecognised(BR, nm, cell, "predicate not decided by the cell valuation")
                 continue
-            want = None if (n == 1 and cur) else "True"
-            ctx.check(h.ret == want, BR, "BranchingList.false_case", cell, detail=h.ret, expected="skip (return True)" if want else "no verdict: go on to the next block")
-    after = body[body.index(lp) + 1:]
-    ctx.check([norm(s) for s in after] == ["return False"], BR, "BranchingList.false_case", "if no open block objects, the line takes effect",
-              detail=[norm(s) for s in after])
+            want = not (n == 1 and cur)
+            ctx.check(got == want, BR, nm, cell, detail="skip" if got else "no verdict", expected="skip (return True)" if want else "no verdict: go on to the next block")
+    ctx.check(bool(empty_ok), BR, nm, "if no open block objects, the line takes effect")
     # @else counts as a true clause
     cn = ctx.fn("src/scinumtools/dip/nodes/node_case.py", "CaseNode.parse")
-    s = norm(cn).replace("\n", " ")
-    ctx.form("elif m.group(2) == Keyword.ELSE: self.value = BooleanType(True)" in s, "src/scinumtools/dip/nodes/node_case.py", "CaseNode.parse",
-             "@else carries the value true (selected iff no earlier clause was)")
+    cps = paths(cn)
+    table, unk = {}, []
+    for kind in ("CASE", "ELSE", "END"):
+        def atom(e, _k=kind):
+            k = norm(e)
+            if isinstance(e, ast.Call) and dotted_name(e.func) == "re.match":
+                return True
+            for x in ("CASE", "ELSE", "END"):
+                if k.endswith(f".group(2) == Keyword.{x}") or k == f"self.case_type == Keyword.{x}":
+                    return _k == x
+                if k.endswith(f".group(2) != Keyword.{x}") or k == f"self.case_type != Keyword.{x}":
+                    return _k != x
+            if k in ("self.value_expr",):
+                return True
+            return None
+        cs, u = consistent(cps, atom)
+        unk += u
+        table[kind] = sorted({norm(e.resolved)[:40] for q in cs for e in q.events if e.kind == "store" and e.extra == "self.value"})
+    if unk:
+        ctx.unrecognised("src/scinumtools/dip/nodes/node_case.py", "CaseNode.parse", "@else carries the value true (selected iff no earlier clause was)",
+                         f"test not decided: {sorted(set(unk))[:2]}")
+    else:
+        ctx.check(table["ELSE"] == ["BooleanType(True)"] and table["END"] == [], "src/scinumtools/dip/nodes/node_case.py", "CaseNode.parse",
+                  "@else carries the value true (selected iff no earlier clause was)", detail=table)
 
 
 class Ladder(Handler):
